@@ -239,9 +239,13 @@ def raw_observe(root, C, dts, fresh, prev_inow):
 class Recorder:
     """Executes ops on a live tree and records one event per outermost call."""
 
-    def __init__(self, C, lazy=False):
+    def __init__(self, C, lazy=False, root=None, dts=None):
         self.C = C
-        self.root, self.objs, self.dts = build(C, lazy=lazy)
+        if root is None:
+            self.root, self.objs, self.dts = build(C, lazy=lazy)
+        else:  # record an existing tree (backtest-level driver)
+            self.root, self.dts = root, dts
+            self.objs = resolve(root, C, [None] * C["N"])
         self.dec = Decoder(C["D"])
         self.decw = Decoder(C["DW"])
         self.events = []
@@ -305,8 +309,6 @@ class Recorder:
             raise ValueError(k)
 
     def step(self, op):
-        C = self.C
-        N = C["N"]
         exc = "none"
         del TRADELOG[:]
         try:
@@ -314,6 +316,14 @@ class Recorder:
         except Exception as e:  # noqa: BLE001 - the class name is the observation
             exc = type(e).__name__
             self.exc_msg = str(e)[:200]
+        return self.finish_event(op, exc)
+
+    def finish_event(self, op, exc, trades=None, extra=None):
+        """Observe (on a clone) after an outermost call and append the event."""
+        C = self.C
+        N = C["N"]
+        if trades is not None:
+            TRADELOG[:] = trades
         k = op["op"]
         fresh = bool(op.get("upd", True)) or k in ("update", "flatten", "read")
         ev = {
@@ -327,12 +337,16 @@ class Recorder:
             "date": op.get("date", 0),
             "exc": exc,
         }
+        if extra:
+            ev.update(extra)
         if exc != "none":
             ev["fresh"] = False
             ev["trades"] = self._trades()
             self._fill(ev, self._raw_min(), N)
             self.events.append(ev)
             return ev
+        pre_trades = list(TRADELOG)
+        was_traded = bool(pre_trades)
         clone = copy.deepcopy(self.root)
         dec0 = self.dec.inexact + self.decw.inexact
         obs_exc = "none"
@@ -342,6 +356,20 @@ class Recorder:
             obs_exc = type(e).__name__
             self.exc_msg = str(e)[:200]
             raw = None
+        if raw is not None and TRADELOG and not was_traded:
+            pass
+        n_live = len(pre_trades)
+        if len(TRADELOG) > n_live and exc == "none":
+            # the fresh read on the clone liquidated a bankrupt tree: the live
+            # tree does the same at its next read - make that read now, so
+            # that log and live tree stay in step (a read is transparent, C08)
+            keep = list(TRADELOG)
+            try:
+                self.root.value
+            except Exception:  # noqa: BLE001
+                pass
+            TRADELOG[:] = keep
+            ev["driver_settled"] = True
         ev["trades"] = self._trades()  # incl. a liquidation done by the fresh read
         if raw is None:
             ev["exc"] = "read:" + obs_exc
@@ -418,6 +446,9 @@ class Recorder:
             ev["val"] = [d(x) for x in raw["val"]]
             ev["wgt"] = [self.decw(x) for x in raw["wgt"]]
             ev["notl"] = [d(x) for x in raw["notl"]]
+            # exactly zero, as opposed to floating-point residue that decodes to 0
+            ev["vz"] = [x == 0.0 for x in raw["val"]]
+            ev["nz"] = [x == 0.0 for x in raw["notl"]]
             ev["rows"] = {k: [d(x) for x in v] for k, v in raw["rows"].items()}
             ev["prev"] = {k: [d(x) for x in v] for k, v in raw["prev"].items()}
             ev["lastidx"] = raw["lastidx"] + 1
@@ -430,7 +461,7 @@ class Recorder:
                 ev["ratio"] = self.decw(pn / pb) if pb not in (0.0,) and not math.isnan(pb) else NAN
         else:
             zr = {k: z for k in ("value", "cash", "pos", "notl", "fees", "flows", "outl", "bop", "cpn", "hc")}
-            ev.update(val=z, wgt=z, notl=z, rows=zr, prev=zr, lastidx=0, chknow=0, chkprev=0, ratio=[1, 1])
+            ev.update(val=z, wgt=z, notl=z, rows=zr, prev=zr, lastidx=0, chknow=0, chkprev=0, ratio=[1, 1], vz=[True] * N, nz=[True] * N)
         ev.setdefault("eqbase", True)
         ev.setdefault("rau", True)
         ev.setdefault("same", False)
